@@ -9,10 +9,17 @@ package main
 import (
 	"bytes"
 	"context"
+	"crypto/ecdsa"
+	"crypto/elliptic"
+	crand "crypto/rand"
+	"crypto/tls"
+	"crypto/x509"
+	"crypto/x509/pkix"
 	"encoding/binary"
 	"errors"
 	"fmt"
 	"io"
+	"log"
 	"math/big"
 	"net"
 	"net/http"
@@ -21,6 +28,7 @@ import (
 	"sort"
 	"strconv"
 	"strings"
+	"sync"
 	"sync/atomic"
 	"time"
 
@@ -578,7 +586,242 @@ func init() {
 		return final, B(strings.Join(out, "\n"))
 	})
 
+	// Round trips through a real client (well-known / SRV lookups on, DNS cache whose resolver
+	// sends every name to 127.0.0.1) to real TLS listeners that fail the first k handshakes.
+	// [name; wksrv; k; nrt; dead ports; wkmode; status; cl; cc; ex; bm; body; now; SRV table...]
+	// PORT / CLOSED in name, body, dead list and SRV ports stand for the listener's port and for
+	// a port nothing listens on; they are replaced before the run and in the final arguments.
+	RegisterImpl("C16.round_trip", func(args [][]byte) ([][]byte, []byte) {
+		srv, err := newC16TLSServer()
+		if err != nil {
+			return args, B("nolisten: " + err.Error())
+		}
+		defer srv.close()
+		sub := func(b []byte) []byte {
+			t := strings.ReplaceAll(string(b), "PORT", srv.port)
+			return B(strings.ReplaceAll(t, "CLOSED", srv.closedPort))
+		}
+		in := make([][]byte, len(args))
+		for i, a := range args {
+			in[i] = sub(a)
+		}
+		if !srv.has8448 {
+			if len(in[4]) > 0 {
+				in[4] = append(in[4], ',')
+			}
+			in[4] = append(in[4], "8448"...)
+		}
+		name := string(in[0])
+		k, _ := strconv.Atoi(string(in[2]))
+		nrt, _ := strconv.Atoi(string(in[3]))
+		srv.failRemaining = k
+		st, _ := strconv.Atoi(string(in[6]))
+		rt := &c16RT{reply: c16Reply{netErr: string(in[5]) != "reply", status: st, cl: string(in[7]), cc: string(in[8]),
+			bodyMode: string(in[10]), body: in[11]}}
+		d := &c16DNS{table: map[string]c16SRVEntry{}}
+		keyNames := c16KnownNames(name, in[11])
+		final := append([][]byte{}, in[:13]...)
+		final = c16LoadSRV(in, 13, d, keyNames, final)
+		cache := fclient.VerifNewDNSCache(64, time.Minute, []string{"0.0.0.0/0"}, nil, func(host string) ([]net.IPAddr, error) {
+			if ip := net.ParseIP(host); ip != nil {
+				return []net.IPAddr{{IP: ip}}, nil
+			}
+			return []net.IPAddr{{IP: net.IPv4(127, 0, 0, 1)}}, nil
+		})
+		cl := fclient.NewClient(fclient.WithWellKnownSRVLookups(string(in[1]) == "1"), fclient.WithDNSCache(cache),
+			fclient.WithSkipVerify(true), fclient.WithTimeout(5*time.Second))
+		var out []string
+		withStubs(rt, d, func() {
+			for i := 0; i < nrt; i++ {
+				h0, d0, a0 := len(rt.log), len(d.log), srv.logLen()
+				ok := false
+				if req, err := http.NewRequest("GET", "matrix://"+name+"/_matrix/federation/v1/version", nil); err == nil {
+					if resp, err := cl.DoHTTPRequest(context.Background(), req); err == nil {
+						ok = resp.StatusCode == 200
+						resp.Body.Close()
+					}
+				}
+				out = append(out, rt.log[h0:]...)
+				out = append(out, c16ProbeLines(d.log[d0:], keyNames)...)
+				out = append(out, srv.logFrom(a0)...)
+				if ok {
+					out = append(out, "RT ok")
+				} else {
+					out = append(out, "RT err")
+				}
+			}
+		})
+		return final, B(strings.Join(out, "\n"))
+	})
+
 	RegisterProp("C16", genC16)
+}
+
+// ---------------------------------------------------------------- TLS listeners for the round trips
+
+type c16TLSServer struct {
+	mu            sync.Mutex
+	failRemaining int
+	log           []string
+	sni           map[string]string // remote address -> SNI of the handshake that got through
+	port          string
+	closedPort    string
+	has8448       bool
+	servers       []*http.Server
+}
+
+var c16Cert *tls.Certificate
+
+func c16SelfSigned() (*tls.Certificate, error) {
+	if c16Cert != nil {
+		return c16Cert, nil
+	}
+	key, err := ecdsa.GenerateKey(elliptic.P256(), crand.Reader)
+	if err != nil {
+		return nil, err
+	}
+	tmpl := &x509.Certificate{SerialNumber: big.NewInt(1), Subject: pkix.Name{CommonName: "verif"},
+		NotBefore: time.Now().Add(-time.Hour), NotAfter: time.Now().Add(24 * time.Hour),
+		KeyUsage: x509.KeyUsageDigitalSignature, ExtKeyUsage: []x509.ExtKeyUsage{x509.ExtKeyUsageServerAuth}}
+	der, err := x509.CreateCertificate(crand.Reader, tmpl, tmpl, &key.PublicKey, key)
+	if err != nil {
+		return nil, err
+	}
+	c16Cert = &tls.Certificate{Certificate: [][]byte{der}, PrivateKey: key}
+	return c16Cert, nil
+}
+
+func newC16TLSServer() (*c16TLSServer, error) {
+	cert, err := c16SelfSigned()
+	if err != nil {
+		return nil, err
+	}
+	s := &c16TLSServer{sni: map[string]string{}}
+	serve := func(ln net.Listener, port string) {
+		cfg := &tls.Config{Certificates: []tls.Certificate{*cert}}
+		cfg.GetConfigForClient = func(h *tls.ClientHelloInfo) (*tls.Config, error) {
+			s.mu.Lock()
+			defer s.mu.Unlock()
+			if s.failRemaining > 0 {
+				s.failRemaining--
+				s.log = append(s.log, "A port="+port+" sni="+h.ServerName)
+				return nil, errors.New("stub: handshake refused")
+			}
+			s.sni[h.Conn.RemoteAddr().String()] = h.ServerName
+			return nil, nil
+		}
+		hs := &http.Server{TLSConfig: cfg, ErrorLog: log.New(io.Discard, "", 0),
+			Handler: http.HandlerFunc(func(w http.ResponseWriter, r *http.Request) {
+				s.mu.Lock()
+				s.log = append(s.log, "A port="+port+" sni="+s.sni[r.RemoteAddr]+" host="+r.Host)
+				s.mu.Unlock()
+				w.Header().Set("Content-Type", "application/json")
+				_, _ = w.Write([]byte("{}"))
+			})}
+		s.servers = append(s.servers, hs)
+		go func() { _ = hs.ServeTLS(ln, "", "") }()
+	}
+	ln, err := net.Listen("tcp4", "127.0.0.1:0")
+	if err != nil {
+		return nil, err
+	}
+	_, s.port, _ = net.SplitHostPort(ln.Addr().String())
+	serve(ln, s.port)
+	if ln2, err := net.Listen("tcp4", "127.0.0.1:8448"); err == nil {
+		s.has8448 = true
+		serve(ln2, "8448")
+	}
+	if c, err := net.Listen("tcp4", "127.0.0.1:0"); err == nil {
+		_, s.closedPort, _ = net.SplitHostPort(c.Addr().String())
+		c.Close()
+	}
+	return s, nil
+}
+
+func (s *c16TLSServer) close() {
+	for _, hs := range s.servers {
+		_ = hs.Close()
+	}
+}
+
+func (s *c16TLSServer) logLen() int {
+	s.mu.Lock()
+	defer s.mu.Unlock()
+	return len(s.log)
+}
+
+func (s *c16TLSServer) logFrom(i int) []string {
+	s.mu.Lock()
+	defer s.mu.Unlock()
+	return append([]string{}, s.log[i:]...)
+}
+
+// names whose SRV questions a case may see: the server name and a delegated name in the body
+func c16KnownNames(name string, body []byte) map[string]string {
+	keyNames := map[string]string{}
+	known := []string{name}
+	if m := c16ServerRe.FindSubmatch(body); m != nil {
+		known = append(known, string(m[1]))
+	}
+	for _, kn := range known {
+		for _, svc := range []string{"matrix-fed", "matrix"} {
+			keyNames[srvKey(svc, kn)] = "P S " + svc + " " + kn
+		}
+	}
+	return keyNames
+}
+
+// SRV table arguments (from index i on) into the DNS stub; returns the final arguments with the
+// stub's kinds rewritten to the model's classes and the records as the resolver hands them back
+func c16LoadSRV(args [][]byte, i int, d *c16DNS, keyNames map[string]string, final [][]byte) [][]byte {
+	for i+3 < len(args) {
+		svcB, qnB, kind := args[i], args[i+1], string(args[i+2])
+		svc, qn := string(svcB), string(qnB)
+		n, _ := strconv.Atoi(string(args[i+3]))
+		i += 4
+		e := c16SRVEntry{kind: kind}
+		for k := 0; k < n; k++ {
+			p, _ := strconv.Atoi(string(args[i+1]))
+			pr, _ := strconv.Atoi(string(args[i+2]))
+			e.recs = append(e.recs, c16SRVRec{target: string(args[i]), port: uint16(p), priority: uint16(pr)})
+			i += 3
+		}
+		d.table[srvKey(svc, qn)] = e
+		keyNames[srvKey(svc, qn)] = "P S " + svc + " " + qn
+		class := map[string]string{"ok": "ok", "nxdomain": "notfound", "nodata": "notfound",
+			"servfail": "error", "refused": "error", "writeerr": "error"}[kind]
+		final = append(final, svcB, qnB, B(class), B(strconv.Itoa(n)))
+		sorted := append([]c16SRVRec{}, e.recs...)
+		sort.SliceStable(sorted, func(a, b int) bool { return sorted[a].priority < sorted[b].priority })
+		for _, r := range sorted {
+			final = append(final, B(r.target+"."), B(strconv.Itoa(int(r.port))))
+		}
+	}
+	return final
+}
+
+// the SRV questions the stub saw, named as the model names them (retries of one question once)
+func c16ProbeLines(qs []string, keyNames map[string]string) []string {
+	var out []string
+	last := ""
+	for _, q := range qs {
+		k := strings.ToLower(q)
+		if k == last {
+			continue
+		}
+		last = k
+		if s, ok := keyNames[k]; ok {
+			out = append(out, s)
+		} else if strings.HasPrefix(k, "_matrix") {
+			for _, svc := range []string{"matrix-fed", "matrix"} {
+				p := "_" + svc + "._tcp."
+				if strings.HasPrefix(k, p) {
+					out = append(out, "P S "+svc+" "+q[len(p):])
+				}
+			}
+		}
+	}
+	return out
 }
 
 // ---------------------------------------------------------------- generators
@@ -1276,7 +1519,75 @@ func genC16Dial(c *Ctx) {
 	}
 }
 
+// Round trips whose first attempts fail, for every resolution step; every attempt the listeners
+// see (both passes, both round trips) is checked against the resolution of the ORIGINAL name.
+func genC16RoundTrip(c *Ctx) {
+	rtOp, rtProp := c16Ops("C16.round_trip", "C16.prop.round_trip")
+	if c16Unrepaired {
+		rtOp = "C16.round_trip" // the retry logic was not touched by the repairs
+	}
+	if s, err := newC16TLSServer(); err != nil {
+		c.Count("round_trip.skipped-no-loopback")
+		return
+	} else {
+		s.close()
+	}
+	one := func(t string, p string) *c16SRVEntry {
+		return &c16SRVEntry{kind: "ok", recs: []c16SRVRec{{target: t, priority: 10}}}
+	}
+	_ = one
+	type plan struct {
+		label, name, wks string
+		wk               c16WK
+		srv              [][]string // svc, qname, kind, then target/port/priority triples
+	}
+	to := func(d string) c16WK {
+		return c16WK{label: "to:" + d, status: 200, mode: "ok", body: `{"m.server":"` + d + `"}`}
+	}
+	none := c16WK{label: "404", status: 404, mode: "ok"}
+	plans := []plan{
+		{"ip-literal+port", "127.0.0.1:PORT", "1", none, nil},
+		{"ip-literal", "127.0.0.1", "1", none, nil},
+		{"explicit-port", "example.com:PORT", "1", none, nil},
+		{"wk->name+port", "example.com", "1", to("delegate.example.net:PORT"), [][]string{{"matrix-fed", "example.com", "ok", "decoy.example", "PORT", "1"}}},
+		{"wk->ip+port", "example.com", "1", to("127.0.0.1:PORT"), nil},
+		{"wk->ip", "example.com", "1", to("127.0.0.1"), nil},
+		{"wk->name->srv", "example.com", "1", to("delegate.example.net"), [][]string{{"matrix-fed", "delegate.example.net", "ok", "fed.target.example", "PORT", "10"}, {"matrix-fed", "example.com", "ok", "decoy.example", "PORT", "1"}}},
+		{"wk->name->8448", "example.com", "1", to("delegate.example.net"), nil},
+		{"srv-fed", "example.com", "1", none, [][]string{{"matrix-fed", "example.com", "ok", "fed.target.example", "PORT", "10"}}},
+		{"srv-legacy", "example.com", "1", c16WK{label: "neterr", neterr: true, mode: "ok"}, [][]string{{"matrix", "example.com", "ok", "legacy.target.example", "PORT", "10"}}},
+		{"srv-two-live", "example.com", "1", none, [][]string{{"matrix-fed", "example.com", "ok", "b.target.example", "PORT", "20", "a.target.example", "PORT", "10"}}},
+		{"srv-dead-then-live", "example.com", "1", none, [][]string{{"matrix-fed", "example.com", "ok", "b.target.example", "PORT", "20", "a.target.example", "CLOSED", "10"}}},
+		{"srv-all-dead", "example.com", "1", none, [][]string{{"matrix-fed", "example.com", "ok", "a.target.example", "CLOSED", "10"}}},
+		{"fallback-8448", "example.com", "1", none, nil},
+		{"invalid-name", "exa_mple.com", "1", none, nil},
+		{"invalid-delegate", "example.com", "1", to("bad name"), nil},
+		{"lookups-off name+port", "example.com:PORT", "0", none, nil},
+		{"lookups-off ip+port", "127.0.0.1:PORT", "0", none, nil},
+	}
+	for _, p := range plans {
+		for k := 0; k <= 5; k++ {
+			for nrt := 1; nrt <= 2; nrt++ {
+				mode := "reply"
+				if p.wk.neterr {
+					mode = "neterr"
+				}
+				a := Args(p.name, p.wks, strconv.Itoa(k), strconv.Itoa(nrt), "CLOSED", mode, strconv.Itoa(p.wk.status), "", "", "", p.wk.mode, p.wk.body, "0")
+				for _, e := range p.srv {
+					a = append(a, B(e[0]), B(e[1]), B(e[2]), B(strconv.Itoa((len(e)-3)/3)))
+					for _, x := range e[3:] {
+						a = append(a, B(x))
+					}
+				}
+				c.Run("C16.round_trip", a, rtOp, rtProp, fmt.Sprintf("round trip %s, first %d handshakes fail, %d round trips", p.label, k, nrt))
+				c.Count("round_trip." + p.label)
+			}
+		}
+	}
+}
+
 func genC16(c *Ctx) {
+	genC16RoundTrip(c)
 	genC16Dial(c)
 	genC16Net(c)
 	genC16Control(c)
